@@ -834,6 +834,51 @@ def native_module(interp, name):
         def _vf_isinstance_of(self, o):
             return isinstance(o, I.PartialObj) or getattr(o, '_vf_is_partial', False)
 
+    class GenCM:
+        """contextlib._GeneratorContextManager (CPython 3.12 Lib/contextlib.py), over an interpreted generator"""
+
+        def __init__(self, gen):
+            self.gen = gen
+
+        def _vf_getattr(self, interp_, nm):
+            if nm == '__enter__':
+                return self.enter
+            if nm == '__exit__':
+                return self.exit
+            raise PyExc(AttributeError, (nm,))
+
+        def enter(self):
+            try:
+                return next(self.gen)
+            except StopIteration:
+                raise PyExc(RuntimeError, ("generator didn't yield",))
+
+        def exit(self, typ, value, tb):
+            if typ is None:
+                try:
+                    next(self.gen)
+                except StopIteration:
+                    return False
+                raise PyExc(RuntimeError, ("generator didn't stop",))
+            ex = interp.pending_with_exc
+            try:
+                self.gen.throw(ex)
+            except StopIteration:
+                return True
+            except PyExc as e2:
+                if e2 is ex:
+                    return False
+                raise
+            raise PyExc(RuntimeError, ("generator didn't stop after throw()",))
+
+    def contextmanager(f):
+        def make(args, kwpairs):
+            return GenCM(interp.call(f, args, kwpairs))
+        make._vf_pairs = True
+        return make
+
+    if name == 'contextlib':
+        return NMod('contextlib', contextmanager=contextmanager)
     if name == 'itertools':
         return NMod('itertools', zip_longest=zip_longest, chain=chain, combinations=combinations, product=product)
     if name == 'collections':
